@@ -2,7 +2,7 @@
 Cases and NumPy/SciPy oracles: props/approx_hetero.py."""
 from . import approx_hetero
 PROPERTY = "C17"
-LEAN_MODULES = ["GT.Props.C17"]
+LEAN_MODULES = ["GT.Props.C17", "GT.Props.C17Trunc"]
 ASSUMPTIONS = ["float64 rounding outside the theorems; true expectations by adaptive quadrature (Dx = 1) and converged "
                "tensor Gauss-Hermite (Dx >= 2), inequality up to 1e-7 + quadrature error",
                "step and rectified-linear links: modelled (GT/Model/HeteroTrunc.lean) and tied by the correspondence run; their "
